@@ -344,7 +344,7 @@ struct Engine : public vf::Engine {
                 else if (x < 87) { o.kind = H_TYPECHECK; o.a = (int64_t)w.below(2); }
                 else if (x < 88) o.kind = H_STASH;
                 else if (x < 94) { o.kind = H_WRAP; o.a = (int64_t)w.below(3); static const int wk[] = { 0, 0, 1, 2, 3, 5, 5 }; o.b = wk[w.below(7)]; }
-                else if (x < 97) { o.kind = H_REALLOC; o.a = (int64_t)w.below((uint64_t)nSlots); o.c = w.small(0, 100); }
+                else if (x < 97) { o.kind = H_REALLOC; o.a = (int64_t)w.below((uint64_t)nSlots); o.c = w.small(0, 100); if (w.chance(1, 8)) o.c = (int64_t)(SIZE_MAX - (size_t)w.below(200)); }      // some refused (overflowing) requests: the block must stay what it was
                 else { o.kind = H_QUERY; o.a = (int64_t)w.below(4); }
             } else if (dia) {
                 if (x < 30) { o.kind = H_BADFREE; o.a = w.range(1, 4); o.b = (int64_t)w.below(3); o.c = (int64_t)w.below(600); o.s = w.chance(2, 3) ? longFile : Str("s.c"); }
@@ -402,8 +402,10 @@ struct Engine : public vf::Engine {
             size_t got = W.det->totalMemoryLeaks((MemLeakPeriod)q);
             if (got != want[q]) { fail(W, "C04", "totals", sg("after", opName), sfmt("after op %zu (%s): totalMemoryLeaks(period %d) = %zu, model %zu", opIdx, opName, q, got, want[q])); break; }
         }
+        if (!W.r->viols.empty()) return;          // the accounting is already known to be off: the model's blocks may no longer exist
         for (int i = 0; i < N_SLOTS; i++) if (W.slots[i].live && W.slots[i].p) {
             size_t bad = 0;
+            if (!HEAP.find(W.slots[i].p)) { fail(W, W.slots[i].tracked ? "C04" : "C05", "released_while_held", sg("after", opName), sfmt("after op %zu (%s): the memory of the block held in slot %d (size %zu) was returned to the platform", opIdx, opName, i, W.slots[i].size)); W.slots[i].live = false; continue; }
             if (!checkPat(W.slots[i], W.slots[i].size, &bad)) { fail(W, "C05", "pattern_intact", sg("after", opName), sfmt("after op %zu (%s): byte %zu of live block in slot %d (size %zu) was overwritten", opIdx, opName, bad, i, W.slots[i].size)); W.slots[i].live = false; }
         }
         if (CTX.bufOverflow) { fail(W, "C14", "buffer_bounds", sg("after", opName), sfmt("after op %zu (%s): %s", opIdx, opName, CTX.bufOverflowDetail.c_str())); CTX.bufOverflow = false; }
@@ -675,14 +677,24 @@ struct Engine : public vf::Engine {
                 else np = det.reallocMemory(fa, S.p, size, file, line, S.route == 1);
                 HEAP.armed = false; HEAP.armedReallocOnly = false; if (HEAP.limitHit) expectNull = true;
                 if (nodeFails && nodeFails->failNodeIn != 0) expectNull = true;
-                expectReports(W, oi, on, cat);
+                // a request refused for its size alone may be refused before or after the block is looked at: a due misuse report is then optional
+                if (size > SIZE_MAX - 256 && cat != -1 && CTX.reports.empty() && !np) probe("oversize_realloc_refused_before_lookup");
+                else expectReports(W, oi, on, cat);
                 if (!np) {
                     if (!expectNull && !HEAP.undersized) fail(W, "C05", "spurious_null", sg("op", on), sfmt("op %zu: realloc to %zu returned NULL although nothing failed", oi, size));
                     // a failed realloc must leave the old block valid and still tracked
                     probe("failed_realloc");
                     { size_t want = 0; for (int i = 0; i < N_SLOTS; i++) if (W.slots[i].live && W.slots[i].tracked) want++;
                       size_t got = det.totalMemoryLeaks(mem_leak_period_all);
-                      if (got != want) fail(W, "C05", "tracked_after_failed_request", sg("op", on), sfmt("op %zu: after the failed realloc the detector tracks %zu blocks, %zu are still held", oi, got, want)); }
+                      if (got != want) {
+                          fail(W, "C05", "tracked_after_failed_request", sg("op", on), sfmt("op %zu: after the failed realloc the detector tracks %zu blocks, %zu are still held", oi, got, want));
+                          // what the correctly paired release of the block says now, by observation (C06: paired releases never produce a report)
+                          CTX.reports.clear();
+                          int relCat = expectedCategory(W, S, fa);
+                          if (S.route == 2) cpputest_free_location(S.p, file, line); else det.deallocMemory(fa, S.p, file, line, S.route == 1);
+                          expectReports(W, oi, "free", relCat);
+                          S.live = false;
+                      } }
                     break;
                 }
                 if (expectNull && !tooBig) fail(W, "C05", "injected_failure", sg2("op", on, "what", "platform realloc failed but a block was returned"), sfmt("op %zu", oi));
